@@ -141,23 +141,27 @@ Theorem C10_kl_partial : forall (nb : nat) (hX hY : list Z * list R), valid_hist
 Proof. intros nb hX hY VX VY Hnb. split; [apply kl_dist_nonneg; auto | apply kl_dist_self; auto]. Qed.
 Print Assumptions C10_kl_partial.
 
-(** the formulas on arbitrary mass vectors: ranges, Gibbs' bound KL >= total(test) - total(reference),
-    characterisation of +inf and of nan *)
+(** the formulas on arbitrary mass vectors ([jensenshannon] is SciPy's function, [js_f] is js.py's
+    wrapper that turns a nan into 0): ranges, Gibbs' bound KL >= total(test) - total(reference),
+    characterisation of +inf and of SciPy's nan (a zero total); the wrapper returns SciPy's
+    value whenever that is a number and never nan *)
 Theorem C10_js_kl_formulas :
   (forall P Q : list R, nonneg P -> nonneg Q -> length P = length Q ->
      0 < sumA (A:=RealA) P -> 0 < sumA (A:=RealA) Q ->
-     exists v : R, js_f (A:=RealA) P Q = Fin v /\ 0 <= v /\ v <= sqrt (ln 2)) /\
+     exists v : R, jensenshannon (A:=RealA) P Q = Fin v /\ 0 <= v /\ v <= sqrt (ln 2)) /\
   (forall P Q : list R, nonneg P -> nonneg Q ->
-     (js_f (A:=RealA) P Q = NaN <-> sumA (A:=RealA) P = 0 \/ sumA (A:=RealA) Q = 0)) /\
+     (jensenshannon (A:=RealA) P Q = NaN <-> sumA (A:=RealA) P = 0 \/ sumA (A:=RealA) Q = 0)) /\
   (forall Pref Qtest : list R, nonneg Pref -> nonneg Qtest -> length Pref = length Qtest ->
      forall v : R, kl_f (A:=RealA) Pref Qtest = Fin v -> sumA (A:=RealA) Qtest - sumA (A:=RealA) Pref <= v) /\
   (forall Pref Qtest : list R, nonneg Pref -> nonneg Qtest ->
      (kl_f (A:=RealA) Pref Qtest = PInf <->
       exists i : nat, (i < length Pref)%nat /\ (i < length Qtest)%nat /\ 0 < nth i Qtest 0 /\ nth i Pref 0 = 0)) /\
-  (forall Pref Qtest : list R, kl_f (A:=RealA) Pref Qtest <> NaN).
+  (forall Pref Qtest : list R, kl_f (A:=RealA) Pref Qtest <> NaN) /\
+  (forall (P Q : list R) (v : R), jensenshannon (A:=RealA) P Q = Fin v -> js_f (A:=RealA) P Q = Fin v) /\
+  (forall P Q : list R, js_f (A:=RealA) P Q <> NaN).
 Proof.
   split; [exact js_range|]. split; [exact js_nan_iff|]. split; [exact kl_lower|].
-  split; [exact kl_inf_iff | exact kl_not_nan].
+  split; [exact kl_inf_iff|]. split; [exact kl_not_nan|]. split; [exact js_f_of_fin | exact js_f_not_nan].
 Qed.
 Print Assumptions C10_js_kl_formulas.
 
@@ -258,8 +262,8 @@ Proof. vm_compute. reflexivity. Qed.
 (** F29 and the negative KL on the executable (binary64) model, i.e. on what is compared with
     the code: with the pre-repair points, constant equal samples give NaN and reference [0, 1/2]
     vs constant test 0 gives KL = -0.3465... = (1/2) ln (1/2); with the repaired points both are
-    proper values (0 for the equal constant samples, +inf for the second pair: the test histogram
-    has mass on [-1/2, 0) where the reference has none) *)
+    proper values (0 for the equal constant samples; +inf for the second pair with 5 points: the
+    test histogram has mass on [-1/2, 0) where the reference has none) *)
 Example C10_refuted_on_floats :
   match js_dist_pre (A:=FloatA) 10 ([3%Z], [1; 2]) ([2%Z], [1; 2]) [1.5; 1.5; 1.5] [1.5; 1.5] with
   | NaN => true
@@ -273,7 +277,7 @@ Example C10_refuted_on_floats :
   | Fin v => PrimFloat.eqb v 0
   | _ => false
   end = true /\
-  match kl_dist (A:=FloatA) 2 ([1%Z; 1%Z], [0; 0.25; 0.5]) ([1%Z], [-0.5; 0.5]) with
+  match kl_dist (A:=FloatA) 5 ([1%Z; 1%Z], [0; 0.25; 0.5]) ([1%Z], [-0.5; 0.5]) with
   | PInf => true
   | _ => false
   end = true.
@@ -295,7 +299,7 @@ Qed.
 
 (** the mass hypotheses of [C10_js_kl_formulas] are satisfiable: two probability vectors *)
 Example C10_nonvacuous_js : exists v : R,
-  js_f (A:=RealA) [1/2; 1/2]%R [1/4; 3/4]%R = Fin v /\ (0 <= v)%R /\ (v <= sqrt (ln 2))%R.
+  jensenshannon (A:=RealA) [1/2; 1/2]%R [1/4; 3/4]%R = Fin v /\ (0 <= v)%R /\ (v <= sqrt (ln 2))%R.
 Proof.
   apply js_range.
   - repeat constructor; lra.
